@@ -76,6 +76,7 @@ struct GenOpts {
   bool fixedTallOnly = false;
   int rowOrientPattern = -1;  // -1 random
   bool positiveArea = true;   // movable cells have positive width/height
+  bool bigFixed = false;  // fixed macros up to half of the row area in each direction: whole density bins are blocked
   bool feasiblePolarity = false;  // only SAME/OPPOSITE polarities, multi-row cells only when enough rows exist
   int fixedOrder = 0;          // 0 shuffled, 1 fixed cells first, 2 fixed cells last
   int startMode = 0;           // 0 scattered, 1 all cells at one point, 2 one x column, 3 coarse grid (many ties)
@@ -190,6 +191,10 @@ inline Circuit genCircuit(Rng &rng, const GenOpts &o) {
       int fw = rng.chance(0.15) ? 0 : (int)(rng.range(1, std::max(1, Wu / 3)) * sc);
       int fh = rng.chance(0.15) ? 0 : (int)(rng.range(1, 3 * Hu) * scy);
       if (rng.chance(0.3)) fh = H * (int)rng.range(1, 2);
+      if (o.bigFixed && rng.chance(0.7)) {
+        fw = (int)(rng.range(1, std::max(1, Wu / 2)) * sc);
+        fh = H * (int)rng.range(1, std::max(1, nRowsY / 2 + 1));
+      }
       if (o.fixedTallOnly && fh == H) fh = 2 * H;
       w.push_back(fw);
       h.push_back(fh);
@@ -549,7 +554,8 @@ inline ColoquinteParameters genParams(Rng &rng, bool hostileDetailed, std::strin
   params.legalization.orderingHeight = rng.chance(0.5) ? -1.0 : rng.unif(-2.0, 2.0);
   if (hostileDetailed && rng.chance(0.6)) {
     params.detailed.reorderingNbRows = (int)rng.range(1, 3);
-    params.detailed.reorderingMaxNbCells = (int)rng.range(0, 5);
+    params.detailed.reorderingMaxNbCells = (int)rng.range(0, rng.chance(0.3) ? 7 : 5);
+    if (rng.chance(0.2)) params.detailed.reorderingNbRows = 4;
     params.detailed.shiftNbRows = (int)rng.range(1, 6);
     params.detailed.shiftMaxNbCells = (int)rng.range(0, 40);
     params.detailed.nbPasses = (int)rng.range(0, 3);
@@ -730,6 +736,8 @@ inline GenOpts makeProfile(Rng &rng, const std::string &name) {
     o.utilLo = 0.85; o.utilHi = 1.1; o.maxCells = 60;
   } else if (name == "obstruction") {
     o.maxFixed = 6; o.obstructionProb = 0.95;
+  } else if (name == "blocked") {
+    o.maxFixed = 8; o.obstructionProb = 1.0; o.bigFixed = true; o.maxRows = 12; o.minCells = 8; o.maxCells = 40; o.utilHi = 0.6;
   } else if (name == "manyfixed") {
     o.maxFixed = 10; o.obstructionProb = 0.5; o.maxNets = 25;
   } else if (name == "nets") {
